@@ -533,6 +533,41 @@ def vmUnstakeAll (cfg : Cfg) (st : State) (contract : Bytes) : Bool × State :=
       if contract ≠ m.account then (false, st)
       else (true, (refundCore cfg st id contract m m.stake).escAdd (st.height + refundDelay) m.account (m.stake * wei))
 
+/-! ## the operator-node transaction (type 7, executor/miner_node_executor.go)
+
+`minerNodeExecutor.Execute`: the sender pays 10 tokens (debited, credited to nobody), the miner it controls is looked up
+by account (block-stale iterator), the main-node contract is called through the EVM (`generateContractAddress`: the
+call must succeed with exactly 4 logs, the 4th carrying ≥ 32 bytes; the address is bytes 12..32 of it) — an external
+input `create2 : Option Bytes` here — and the miner's account becomes that address, WITHOUT the
+"account already controls a miner" check the change-account transaction makes. -/
+
+def nodePrice : Nat := 10 * wei
+
+/-- `Execute` of the operator-node executor; like the other executors a failing run returns the state it was given
+    (the debit is journaled and reverted by `RevertToSnapshot`). -/
+def execNode (cfg : Cfg) (st : State) (src : Bytes) (create2 : Option Bytes) : String × State :=
+  let owner := toAddr src
+  if st.balOf owner < nodePrice then ("fail:rpg", st)
+  else
+    let st1 := st.subBal owner nodePrice
+    match byAccount cfg st1 src with
+    | none => ("fail:nominer", st)
+    | some id =>
+      match getMiner cfg st1 id with
+      | none => ("fail:nominer", st)
+      | some m =>
+        match create2 with
+        | none => ("fail:create2", st)
+        | some a => ("ok", updateMiner cfg st1 { m with account := a } none)
+
+/-- The transaction as `VMExecutor.Execute` runs it (fee, snapshot, `Execute`, revert on failure). -/
+def runNode (cfg : Cfg) (st : State) (src : Bytes) (create2 : Option Bytes) : String × State :=
+  match processFee st src with
+  | none => ("skip:nofee", st)
+  | some st1 =>
+    let r := execNode cfg st1 src create2
+    if r.1 = "ok" then r else (r.1, st1)
+
 /-- `MinerManager.InsertMiner` (genesis: no debit, no account/id cross-check). -/
 def insertMiner (cfg : Cfg) (st : State) (info : Info) (stake status : Nat) (account : Bytes) : Int × State :=
   if (st.live (dbOfType info.typ)).get info.id ≠ [] then (-1, st)
